@@ -25,6 +25,10 @@ def skip_choice(choice):
 
 def run(chk):
     chk.level = "proof"
+    from props import alg_forwarding
+    from cola.linalg.trace.diagonal_estimation import Exact as _Exact, Hutch as _Hutch
+    alg_forwarding.forwarding(chk, "C08", _Exact)
+    alg_forwarding.forwarding(chk, "C08", _Hutch)
     chk.assume("'A structural rule either returns the same values as the generic probing algorithm or refuses the request with an error': "
                "AssertionError is an allowed outcome of a diag/trace rule (excused), any value returned must be the k-th diagonal")
     def hyps(args, cfg):
